@@ -202,6 +202,20 @@ def run_case(case) -> Outcome:
             asm("if", f".if {text} {{\n.db 1\n}} else {{\n.db 0\n}}\n", b"\x01" if value != 0 else b"\x00")
             if 0 <= value <= 8:
                 asm("for", f".for i_v := 0, {text} {{\n.db i_v + 0x10\n}}\n.db 0xEE\n", bytes(0x10 + i for i in range(value)) + b"\xee")
+        if ids and "lb_a" not in ids:
+            # identifiers that are macro parameters bound late (`=` symbols, whose values are not known while the macro is expanded), while the enclosing scope defines
+            # the same names with other values: the text means the same in a data directive and as a nested argument
+            names = sorted(ids)
+            decoys = "".join(f"{n} := 0x{env[n] + 1 + i:x}\n" for i, n in enumerate(names))
+            body = (f"*=0x{org:06x}\n" + decoys + ".macro m_in(p_v) {\n.dl p_v, p_v>>24\n}\n.macro m_e(" + ", ".join(names) + f") {{\n.dl {text}\nm_in({text})\n}}\n"
+                    + "".join(f"k_fw_{n} = 0x{env[n]:x}\n" for n in names) + "m_e(" + ", ".join(f"k_fw_{n}" for n in names) + ")\n")
+            res = driver.assemble_mem(body)
+            out.evals += 1
+            labels.append("ctx:late-params")
+            if not res.accepted:
+                out.bad(f"late-params:rejected:{crash_sig(res)}", case, f"expression `{text}` over late-bound macro parameters rejected: {res['status']} {res['exc']} {res.failure_text[:200]}\n{body}")
+            elif _flat(res) != _le(value, 3) + _le(value, 3) + _le(value >> 24, 3):
+                fail("late-params", "value", f"emitted {_flat(res).hex()} expected {(_le(value, 3) + _le(value, 3) + _le(value >> 24, 3)).hex()}\n{body}")
     asm("imm", f"lda.w #{text}\n", b"\xa9" + _le(value, 2))
     if tree[0] != "par":
         asm("operand", f"jmp.l {text}\n", b"\x5c" + _le(value, 3)) if 0 <= value < 1 << 24 else asm("operand", f"lda.w {text}\n", b"\xad" + _le(value, 2))
